@@ -156,6 +156,17 @@ func runSysWorker() {
 				return "ok"
 			})
 			res = lineOracle(content) + " ; " + r
+		case "srange": // srange <start> <end> <lease ns>: the range plugin on a fresh lease database
+			nfile++
+			db := filepath.Join(dir, fmt.Sprintf("leases%d.sqlite3", nfile))
+			res = guard(func() string {
+				h, err := builtin["range"].Setup4(db, net.IP(unhx(f[1])).String(), net.IP(unhx(f[2])).String(), f[3]+"ns")
+				if err != nil || h == nil {
+					return "err"
+				}
+				h4 = append(h4, h)
+				return "ok"
+			})
 		case "sdg4":
 			dg := unhx(f[3])
 			parsed := "U"
@@ -310,6 +321,9 @@ func genSys(c *ctx) {
 			}
 		}
 		cands = append(cands, plugSpec{name: "file"})
+		if !v6 && c.rng.Intn(2) == 0 {
+			cands = append(cands, plugSpec{name: "range"})
+		}
 		c.rng.Shuffle(len(cands), func(a, b int) { cands[a], cands[b] = cands[b], cands[a] })
 		// the usual layout, often: server_id first
 		if c.rng.Intn(3) == 0 {
@@ -326,6 +340,14 @@ func genSys(c *ctx) {
 		var ownSID net.IP
 		var ownDUID dhcpv6.DUID
 		for _, sp := range cands[:k] {
+			if sp.name == "range" {
+				// a small range, so that it runs out
+				start := uint32(0x0a000a0a) + uint32(c.rng.Intn(200))
+				size := uint32(1 + c.rng.Intn(6))
+				lease := []int64{60e9, 3600e9, 1500e6, 400e6, 0, 2499999999}[c.rng.Intn(6)]
+				group = append(group, fmt.Sprintf("srange %s %s %d", hx(u32ip(start)), hx(u32ip(start+size)), lease))
+				continue
+			}
 			if sp.name == "file" {
 				var sb strings.Builder
 				for _, m := range macs[:1+c.rng.Intn(3)] {
